@@ -302,7 +302,7 @@ def explore(ctx, tier, rng, search=False):
     for _ in range(n_fn):
         cases.append(gen_fn_case(rng))
     for _ in range(n_rand):
-        cases.append({'kind': 'rand', 'seed': rng.randrange(2 ** 31)})
+        cases.append({'kind': 'rand', 'seed': rng.choice([0, 0, 1, 2019, rng.randrange(2 ** 31), rng.randrange(100)])})
 
     # implementation first (the model needs what the database really holds), then one model batch
     impl_out, reqs, spans = [], [], []
